@@ -1048,7 +1048,9 @@ HandleElementResult NonSaslAuthManager::handleElement(const QDomElement &el)
 
             query.p.finish(QXmppError { iq.error().text(), iq.error() });
         }
-        return Finished;
+        // the continuation usually starts the authentication query on this same manager:
+        // then it is not finished yet and must keep receiving elements
+        return std::holds_alternative<NoQuery>(m_query) ? Finished : Accepted;
     }
 
     if (std::holds_alternative<AuthQuery>(m_query)) {
